@@ -1,5 +1,5 @@
-"""Record, per Verus unit, how many closures WITHOUT a contract each function under contract
-contains on the tree the contracts were written for (units/<u>/closures.json). The runner uses
+"""Record, per Verus unit, how many closures WITHOUT a contract (and which contract-free
+stand-ins listed in unit.json `contract_free`) each function under contract contains / calls on the tree the contracts were written for (units/<u>/closures.json). The runner uses
 it this way: when an obligation fails inside a function that now holds MORE contract-less
 closures than recorded, the failure may be nothing but the missing closure contract ("needs
 contract", not "bug"): the unit is reported undecided and the bounded replay decides.
@@ -10,6 +10,17 @@ import sys
 from . import template
 
 ROOT = os.path.dirname(os.path.dirname(os.path.abspath(__file__)))
+
+
+def contract_free_calls(g, cfg):
+    """per emitted block: which of the unit's contract-free stand-ins (unit.json `contract_free`:
+    functions whose result Verus knows nothing about) the block calls"""
+    import re
+    names = cfg.get('contract_free', [])
+    out = {}
+    for blk, text in g.block_text.items():
+        out[blk] = [n for n in names if re.search(r'\b' + re.escape(n) + r'\s*(::<[^>]*>)?\s*\(', text)]
+    return out
 
 
 def main():
@@ -23,13 +34,17 @@ def main():
             continue
         tpl = open(os.path.join(d, cfg.get('template', 'unit.rs'))).read()
         tot = {}
+        calls = {}
         for tier in ('quick', 'thorough'):
             g = template.render(tpl, flags=[tier] + cfg.get('flags', []), canary=True)
             for k, v in g.bare_closures.items():
                 if v:
                     tot[k] = max(tot.get(k, 0), v)
-        json.dump(tot, open(os.path.join(d, 'closures.json'), 'w'), indent=1, sort_keys=True)
-        print(u, tot)
+            for k, names in contract_free_calls(g, cfg).items():
+                if names:
+                    calls[k] = sorted(set(calls.get(k, [])) | set(names))
+        json.dump({'bare_closures': tot, 'contract_free_calls': calls}, open(os.path.join(d, 'closures.json'), 'w'), indent=1, sort_keys=True)
+        print(u, tot, calls)
 
 
 if __name__ == '__main__':
